@@ -76,7 +76,12 @@ fn main() {
     println!("cargo:rerun-if-env-changed=VERIF_REPO");
     println!("cargo:rerun-if-changed=build.rs");
     let mut variants_rs = String::new();
+    let want_s1 = std::env::var("CARGO_FEATURE_S1").is_ok();
+    let want_s2 = std::env::var("CARGO_FEATURE_S2").is_ok();
     for v in VARIANTS {
+        if (v.real_common && !want_s2) || (!v.real_common && !want_s1) {
+            continue;
+        }
         let vdir = out_dir.join(v.name);
         fs::create_dir_all(&vdir).unwrap();
         variants_rs.push_str(&format!(
